@@ -35,7 +35,8 @@ ItInput(n, k, withx, ploidy, C) ==
     [op |-> "import_theta", segs |-> SubSeq(AutoSegs, 1, n) \o (IF withx THEN << <<"chr", "X", 0, 50>> >> ELSE <<>>),
      ploidy |-> ploidy, C |-> C, nll |-> 12500, mu |-> IF k = 1 THEN <<300, 700>> ELSE <<300, 400, 300>>,
      p |-> [j \in 1..n |-> IF C[j][1] < 0 THEN -1 ELSE 100 * j],
-     parsed |-> [ok |-> FALSE, nll |-> 0, mu_normal |-> 0, mu_tumors |-> <<>>, C |-> <<>>, p |-> <<>>], out |-> <<>>, err |-> ""]
+     parsed |-> [ok |-> FALSE, nll |-> 0, mu_normal |-> 0, mu_tumors |-> <<>>, C |-> <<>>, p |-> <<>>], out |-> <<>>,
+     exp |-> <<>>, exp_ok |-> FALSE, err |-> ""]
 ItInScope == UNION {{ItInput(n, 1, wx, pl, C) : wx \in BOOLEAN, pl \in {2, 3}, C \in Mats(n, 1)} : n \in 1..3}
        \cup UNION {{ItInput(n, 2, wx, 2, C) : wx \in BOOLEAN, C \in Mats(n, 2)} : n \in 1..3}
 
@@ -108,7 +109,8 @@ ItALayer(r) ==
         pw(cn) == ObsOfFx(IF cn = 0 THEN FxFromRat(1, 2 * r.ploidy) ELSE FxFromRat(cn, r.ploidy))
     IN [r EXCEPT !.out = [k \in 1..Len(a[2]) |-> [m \in 1..Len(a[2][k]) |-> Append(a[2][k][m], pw(a[2][k][m][5]))]],
                  !.parsed = [ok |-> TRUE, nll |-> r.nll, mu_normal |-> r.mu[1], mu_tumors |-> SubSeq(r.mu, 2, Len(r.mu)),
-                             C |-> [k \in 1..NSub(r) |-> CopiesOf(r, k)], p |-> <<r.p>>]]
+                             C |-> [k \in 1..NSub(r) |-> CopiesOf(r, k)], p |-> <<r.p>>],
+                 !.exp_ok = TRUE, !.exp = [k \in 1..Len(ItKept(r)) |-> <<ItKept(r)[k][3], ItKept(r)[k][4]>>]]
 BivarA(d) == LET M == BiweightLocation(d)  b == BivarAt(d, M, 9) IN IF ~b[1] \/ ZIsZero(b[3]) THEN BivarFallback(d, M) ELSE b[2]
 MtALayer(r) ==
     IF ~Compatible(r) THEN [r EXCEPT !.err = "ValueError"]
